@@ -445,7 +445,15 @@ func ParseContractFile(path, pkg string) (*ContractFile, error) {
 					}
 				}
 				if m == nil {
-					return nil, fail(i, "assert call=NAME#N [label:] expr  |  assert return=N [label:] expr  |  assert back=N [label:] expr")
+					// assert exit=N: on every edge that leaves loop N for the block its own
+					// condition exits to (condition false, or break); returns inside the body
+					// leave the loop elsewhere and are not concerned
+					if em := regexp.MustCompile(`^exit=(\d+)\s+(.*)$`).FindStringSubmatch(rest); em != nil {
+						m = []string{rest, "exit$", em[1], em[2]}
+					}
+				}
+				if m == nil {
+					return nil, fail(i, "assert call=NAME#N [label:] expr  |  assert return=N [label:] expr  |  assert back=N [label:] expr  |  assert exit=N [label:] expr")
 				}
 				c := &Clause{Kind: "assert", Line: linenos[i]}
 				c.Loop, _ = strconv.Atoi(m[2])
